@@ -26,6 +26,8 @@ def defects(rng):
         ("colliding glyph names (g_ prefix)", ALL, [("emoji_u0067_1f9d0.svg", good(1)), ("emoji_u1f9d0.svg", good(2, "blue"))], []),
         ("malformed XML", ALL, [("emoji_u1f9d0.svg", "<svg xmlns='http://www.w3.org/2000/svg' viewBox='0 0 10 10'><path d='M0,0")], []),
         ("unparsable colour", [f for f in VECTOR if "untouched" not in f], [("emoji_u1f9d0.svg", good(1, "notacolour"))], []),
+        ("unsupported colour syntax (percent rgb)", [f for f in VECTOR if "colr" in f], [("emoji_u1f9d0.svg", good(1, "rgb(100%, 0%, 0%)"))], []),
+        ("unsupported colour syntax in a gradient stop", [f for f in VECTOR if "colr" in f], [("emoji_u1f9d0.svg", (g % "").replace('stop-color="red"', 'stop-color="rgb(100%, 0%, 0%)"'))], []),
         ("unknown spreadMethod", [f for f in VECTOR if "untouched" not in f and f != "glyf"], [("emoji_u1f9d0.svg", g % 'spreadMethod="bogus"')], []),
         ("palette index conflict", [f for f in VECTOR if "colr" in f], [("emoji_u1f9d0.svg", good(1, "var(--color1, red)")), ("emoji_u1f9d1.svg", good(2, "var(--color1, blue)"))], []),
         ("bitmap too big for CBDT", ["cbdt"], [("emoji_u1f9d0.svg", good(1))], ["--bitmap_resolution", "300"]),
